@@ -140,8 +140,19 @@ def run(case, rec):
     if cfg["refine"] and case.get("workers"):
         kwargs["num_processes"] = 2  # the number of worker processes is not part of the requested model
         rec.count("refined_with_worker_processes")
-    call = common.monitored(rec, "locate_droplets", droplets.locate_droplets, ScalarField(grid, data), **kwargs)
     label = f"config={cfg} variant={variant}"
+    if case.get("via_tracker") and cfg["width"] is None:
+        # the same request made through a droplet tracker (the route a simulation takes)
+        def through_tracker():
+            tr = droplets.DropletTracker(1, threshold=kwargs["threshold"], refine=cfg["refine"], perturbation_modes=cfg["modes"])
+            tr.handle(ScalarField(grid, data), 0.0)
+            return tr.data.emulsions[0]
+
+        call = common.monitored(rec, "DropletTracker.handle", through_tracker)
+        rec.count("requests_made_through_a_tracker")
+        label += " requested through DropletTracker"
+    else:
+        call = common.monitored(rec, "locate_droplets", droplets.locate_droplets, ScalarField(grid, data), **kwargs)
     if cfg["modes"] > 0 and cfg["dim"] == 1:
         rec.check(not call.ok and type(call.exc) is ValueError, "documented-error",
                   f"modes > 0 in 1-D: expected ValueError, got {repr(call.exc) if not call.ok else repr(call.result)}; {label}")
@@ -192,6 +203,8 @@ def run_shard(spec, rec):
         case = {"kind": "configs", "config": allc[i], "variant": spec["variant"], "seed": spec["seed"]}
         if allc[i]["refine"] and (i * 7 + spec["seed"]) % 16 == 3:
             case["workers"] = True
+        elif allc[i]["width"] is None and (i * 5 + spec["seed"]) % 4 == 1:
+            case["via_tracker"] = True
         with rec.case("configs", case):
             try:
                 run(case, rec)
